@@ -1560,6 +1560,7 @@ def rule_round5(repo, rep):
     from ..exprnorm import comparison
 
     rule_conditionally_assigned(repo, rep)
+    rule_bias_range_agreement(repo, rep)
     rule_stale_ofm_alias(repo, rep)
     rule_dimension_minus_one_divisor(repo, rep)
     rule_none_to_dereferencing_method(repo, rep)
@@ -2088,3 +2089,33 @@ def rule_stale_ofm_alias(repo, rep):
     if n < 1:
         raise AnalysisError("no reset of an OFM alias' producer list found (expected rewrite_concat_ops)")
     rep.floor("C13-aa", 1)
+
+
+def rule_bias_range_agreement(repo, rep, rule="C13-ad"):
+    """(ad) the supported-operator check on int64 biases admits exactly the values the encoder can pack: encode_bias asserts the signed 40-bit
+    range -(2^39) <= b < 2^39. constraint_bias_40bit is interpreted on probe values around both ends."""
+    from ..absint import AList, AObj, Interp, Unknown
+
+    rep.clause(rule, "constraint_bias_40bit accepts exactly the signed 40-bit range that weight_compressor.encode_bias asserts (a value it lets through aborts the compilation in the encoder)")
+    so = repo.mod("tflite_supported_operators")
+    enc = repo.mod("weight_compressor").func("encode_bias")
+    rng = [a for a in ast.walk(enc) if isinstance(a, ast.Assert) and "bias" in str(norm(a.test)) and "<<" in str(norm(a.test))]
+    if len(rng) != 1 or str(norm(rng[0].test)).replace(" ", "") not in ("-(1<<40-1)<=bias<1<<40-1", "-(1<<39)<=bias<1<<39", "-(1<<(40-1))<=bias<(1<<(40-1))"):
+        raise AnalysisError(f"encode_bias: signed 40-bit range assertion not recognised ({[str(norm(a.test)) for a in rng]})")
+    it = Interp(repo, so)
+    probes = [(1 << 39) - 1, 1 << 39, (1 << 40) - 1, 1 << 40, -(1 << 39), -(1 << 39) - 1, -5, 0, 12345]
+    wrong = []
+    for v in probes:
+        def mk(v=v):
+            return [AObj("op", {"bias": AObj("bias", {"dtype": Unknown("DataType.int64"), "values": AList([v]), "name": "b"})})], {}
+
+        ps = [p for p in it.run("TFLiteSupportedOperators.constraint_bias_40bit", mk) if p.kind == "return"]
+        if not ps or not all(isinstance(p.value, tuple) and isinstance(p.value[0], bool) for p in ps):
+            raise AnalysisError(f"constraint_bias_40bit not evaluable for {v}")
+        accepted = all(p.value[0] for p in ps)
+        if accepted != (-(1 << 39) <= v < (1 << 39)):
+            wrong.append((v, accepted))
+    rep.check(not wrong, rule, "ethosu/vela/tflite_supported_operators.py:TFLiteSupportedOperators.constraint_bias_40bit", f"accepts b iff -(2^39) <= b < 2^39 ({len(probes)} probes)",
+              f"{[(v_, 'accepted' if a_ else 'rejected') for v_, a_ in wrong]}: the test counts the bits of the magnitude; a bias in [2^39, 2^40) is placed on the NPU and `encode_bias` asserts "
+              "(under python -O the record holds bias - 2^40)")
+    rep.floor(rule, 1)
